@@ -19,6 +19,9 @@ class DapClient:
         if self.sock is None:
             raise ConnectionError("debug adapter not listening on %d" % port)
         self.sock.settimeout(None)
+        # the adapter writes header and body separately: without quick ACKs every message costs a delayed-ACK interval (40 ms)
+        self.sock.setsockopt(socket.IPPROTO_TCP, socket.TCP_NODELAY, 1)
+        self._quickack()
         self.seq = 1
         self.responses = {}
         self.events = []          # (monotonic time, event message)
@@ -28,29 +31,39 @@ class DapClient:
         self.reader = threading.Thread(target=self._read, daemon=True)
         self.reader.start()
 
+    def _quickack(self):
+        try:
+            self.sock.setsockopt(socket.IPPROTO_TCP, socket.TCP_QUICKACK, 1)
+        except (OSError, AttributeError):
+            pass
+
     def _read(self):
-        f = self.sock.makefile("rb")
+        buf = b""
         try:
             while True:
+                # a complete message in the buffer?
+                sep = buf.find(b"\r\n\r\n")
                 n = None
-                while True:
-                    line = f.readline()
-                    if not line:
-                        raise EOFError
-                    line = line.strip()
-                    if not line:
-                        break
-                    if line.lower().startswith(b"content-length:"):
-                        n = int(line.split(b":")[1])
-                body = f.read(n)
-                if body is None or len(body) < n:
+                if sep >= 0:
+                    for line in buf[:sep].split(b"\r\n"):
+                        if line.lower().startswith(b"content-length:"):
+                            n = int(line.split(b":")[1])
+                    if n is not None and len(buf) >= sep + 4 + n:
+                        body = buf[sep + 4:sep + 4 + n]
+                        buf = buf[sep + 4 + n:]
+                        msg = json.loads(body)
+                        with self.lock:
+                            if msg.get("type") == "response":
+                                self.responses[msg["request_seq"]] = msg
+                            elif msg.get("type") == "event":
+                                self.events.append((time.monotonic(), msg))
+                        continue
+                self._quickack()
+                chunk = self.sock.recv(65536)
+                self._quickack()       # acknowledge at once: the adapter's next small write waits for this ACK (Nagle)
+                if not chunk:
                     raise EOFError
-                msg = json.loads(body)
-                with self.lock:
-                    if msg.get("type") == "response":
-                        self.responses[msg["request_seq"]] = msg
-                    elif msg.get("type") == "event":
-                        self.events.append((time.monotonic(), msg))
+                buf += chunk
         except Exception:
             pass
         finally:
